@@ -778,9 +778,11 @@ def run_patricia(ctx):
 			leaf_value = last[2] if 'L' == last[0] else rng.bytes_(32)
 			expected = o_implied(visited, trace, key, leaf_value)
 			kind = {1: 'present', 2: 'absent-dead-end', 0x8005: 'absent-mismatch', 0x4001: 'inconclusive', 'raise': 'key-exhausted'}[expected]
-			check(
+			answer = check(
 				f'{label}:{kind}', key_bytes, leaf_value, nodes, state_hash, roots, expected, f'intact proof of a {kind} key',
 				defect_predictions(visited, steps, len(visited), key, leaf_value))
+			if any(sub[1] for sub in visited[:-1]):
+				ctx.count(f'patricia:branch-path-above-last-node:intact:{answer}')
 			# the specification-side functions of the model on the same tree
 			if ctx.driver and (ctx.thorough or rng.random() < 0.5):
 				lookup = f'ok {hx(last[2])}' if 'L' == last[0] and trace == list(key) else 'none'
@@ -794,10 +796,12 @@ def run_patricia(ctx):
 				check(f'{label}:wrong-value', key_bytes, wrong, nodes, state_hash, roots, VERDICTS['LEAF_VALUE_MISMATCH'], 'proof tested with another value')
 			# truncations of the honest proof: the cut ends at a branch with a continuing link
 			for cut in range(1, len(nodes)):
-				check(
+				answer = check(
 					f'{label}:truncated', key_bytes, leaf_value, nodes[:cut], state_hash, roots,
 					o_implied(visited[:cut], o_trace(visited, steps, cut), key, leaf_value), 'truncated proof (continuing link)',
 					defect_predictions(visited, steps, cut, key, leaf_value))
+				if any(sub[1] for sub in visited[:cut - 1]):
+					ctx.count(f'patricia:branch-path-above-last-node:truncated:{answer}')
 			# single corruptions
 			for _ in range(ctx.scale(3, 8)):
 				corruption = rng.choice(['state-hash', 'roots', 'node-path', 'link', 'leaf-value', 'key', 'drop-middle', 'drop-first'])
